@@ -229,6 +229,8 @@ CERT_EVENTS = [
     (r"calculate_fingerprint" + B + r"\s*\.map_err" + B + r"\?", "new_fingerprint", "F"),
     (r"\b\w+\.insert\(", "insert", "M"),
     (r"return\s+Err\(StateError::ReplaceCertificate\(format!", "postcheck", "F"),
+    # the expiration override that comes with a certificate is recorded / forgotten next to it
+    (r"self\s*\.set_certificate_expiration" + B, "expiry", "M"),
 ]
 
 
@@ -340,8 +342,8 @@ def gen_v_text(src):
 
 # the event order the hand-written certificate handlers of CfgState/Model.v mirror
 MODEL_CERT_EVENTS = {
-    "add_certificate": ["fingerprint", "apply_names", "bucket_create", "insert"],
-    "replace_certificate": ["old_hex", "new_fingerprint", "apply_names", "lookup_mut", "remove_old", "insert", "lookup_bucket", "postcheck"],
+    "add_certificate": ["fingerprint", "apply_names", "bucket_create", "insert", "expiry"],
+    "replace_certificate": ["old_hex", "new_fingerprint", "apply_names", "lookup_mut", "remove_old", "insert", "lookup_bucket", "postcheck", "expiry", "expiry"],
 }
 
 
@@ -661,11 +663,11 @@ def rand_op(rng, weights=None):
     nnames = F["sizes"]["names"]
     names = rng.choice([[], [], [], [10], [10, 11], [0]])
     if r < 0.92:
-        return ["add_cert", rng.randrange(3), rng.randrange(ncert), rng.randrange(8)] + names
+        return ["add_cert", rng.randrange(3), rng.randrange(ncert), rng.randrange(24)] + names
     if r < 0.94:
         return ["remove_cert", rng.randrange(3), rng.choice([0, 1, 2, 3, 6, 7, 8, 9, 900])]
     if r < 0.98:
-        return ["replace_cert", rng.randrange(3), rng.randrange(ncert), rng.randrange(8), rng.choice([0, 1, 1, 2, 3, 7, 8, 900])] + names
+        return ["replace_cert", rng.randrange(3), rng.randrange(ncert), rng.randrange(24), rng.choice([0, 1, 1, 2, 3, 7, 8, 900])] + names
     return [rng.choice(["noop", "undisp", "empty"]), rng.randrange(3)]
 
 
